@@ -443,6 +443,11 @@ func (g *Gen) step() {
 					g.do(fmt.Sprintf("qa %d %d", k, g.rng.intn(cnt)))
 				}
 			}
+			// ... and a fresh result query entered with Step rather than Next (its first range
+			// usually starts behind entities that were in the destination table before)
+			if q := g.r.queries[k]; q.batch && !q.closed && g.rng.chance(35) {
+				g.do(fmt.Sprintf("qs %d %d", k, pick(g.rng, []int{1, 1, 2, 3})))
+			}
 		}
 	}()
 	faulty := g.rng.chance(g.p.fault)
